@@ -418,7 +418,7 @@ func c01Decode(side imapwire.ConnSide, wire []byte, reader string) (res string) 
 
 func c01ParseRanges(s string) [][2]uint32 {
 	var out [][2]uint32
-	if s == "" || s == "empty" || s == "nil" || s == "$" {
+	if s == "" || s == "empty" || s == "emptycap" || s == "nil" || s == "$" {
 		return nil
 	}
 	for _, it := range strings.Split(s, ",") {
@@ -436,6 +436,9 @@ func c01MakeNumSet(kind, s string) imap.NumSet {
 		if s == "nil" {
 			return imap.SeqSet(nil)
 		}
+		if s == "emptycap" { // empty with spare capacity: a reset scratch set
+			return make(imap.SeqSet, 0, 4)
+		}
 		out := imap.SeqSet{}
 		for _, r := range rs {
 			out = append(out, imap.SeqRange{Start: r[0], Stop: r[1]})
@@ -447,6 +450,9 @@ func c01MakeNumSet(kind, s string) imap.NumSet {
 	}
 	if s == "nil" {
 		return imap.UIDSet(nil)
+	}
+	if s == "emptycap" {
+		return make(imap.UIDSet, 0, 4)
 	}
 	out := imap.UIDSet{}
 	for _, r := range rs {
@@ -980,7 +986,7 @@ func genC01(e *emitter, tier string, seed uint64) {
 		tr := hx([]byte(pick(r, c01SepTrailers)))
 		switch r.intn(12) {
 		case 0:
-			return one(c01Case("nset", cfg.String(), kind, pick(r, []string{"empty", "nil"}), tr), "nset:empty")
+			return one(c01Case("nset", cfg.String(), kind, pick(r, []string{"empty", "nil", "emptycap"}), tr), "nset:empty")
 		case 1:
 			return one(c01Case("nset", cfg.String(), "uid", "$", tr), "nset:searchres")
 		}
